@@ -47,6 +47,7 @@ func (c05) Gates(tier string, m map[string]int64) []rt.Gate {
 		rt.GateMin("columns checked against the reference", m, "ref_columns", 5000),
 		rt.GateMin("statements compared in all eight configurations", m, "compared8", 2000),
 		rt.GateMin("statements with a duplicated field name", m, "duplicate_alias", 50),
+		rt.GateMin("ORDER BY on a field defined through another field's name", m, "order_by_field_defined_through_a_name", 200),
 		rt.GateMin("field names and chunk keys with colliding concatenations", m, "colliding_name_key_concatenations", 200),
 	}
 }
@@ -141,6 +142,20 @@ func (k c05) Run(c *rt.Ctx) {
 			stmt.Fields = append(stmt.Fields, gen.Field{E: e, Alias: stmt.Fields[src].Alias})
 			c.Rec.Inc("duplicate_alias")
 		}
+	}
+	if !stmt.Star && !stmt.IsAggregate() && r.Chance(1, 8) {
+		// a sort key defined through another field: its type (hence the comparison used by
+		// ORDER BY) is only known once the name is resolved; the expanded text has no such step
+		v0 := gen.Value()
+		var cc *gen.Node
+		if r.Bool() {
+			cc = gen.Bin("+", gen.Bin("+", gen.Ref("v0", v0), gen.Str(":")), gen.Key())
+		} else {
+			cc = gen.Bin("+", gen.Ref("v0", v0), gen.Call("upper", gen.Key()))
+		}
+		stmt.Fields = append(stmt.Fields, gen.Field{E: v0, Alias: "v0"}, gen.Field{E: cc, Alias: "cc"})
+		stmt.OrderBy = []gen.OrderItem{{Name: "cc", Desc: r.Bool()}}
+		c.Rec.Inc("order_by_field_defined_through_a_name")
 	}
 	if !stmt.Star && !stmt.IsAggregate() {
 		// `key` is always selected so the row's pair is known
